@@ -8,6 +8,7 @@ implementation's outputs."""
 import itertools
 import json
 import subprocess
+import threading
 import vcheck
 import vworker
 from vcheck import coq_string, coq_list, coq_z
@@ -68,6 +69,15 @@ def normalize(c, obs):
     if not dropped and not pings:
         return c, obs, 0
     return dict(c, ops=ops2), dict(obs, steps=steps2), dropped
+
+
+def ident_class(route):
+    """how the interpreter identifies the SOURCE of a definition made through a route: a bare script name ("dN.php":
+    direct / parse / infunc / cond), the path of a file on disk (parsefile / include / require_once) or an eval
+    location ("dN.php(1) : eval()'d code").  The model identifies a definition by its file id N, so a file id is
+    re-used (same-file re-declaration) only among routes of one class: across classes the interpreter sees two
+    different sources for the same N and rejects the second declaration, which is not what the history means."""
+    return "file" if route in ("parsefile", "include", "require_once") else ("eval" if route == "eval" else "plain")
 
 
 def stale_own_after_base_add(c, obs):
@@ -215,8 +225,25 @@ def coq_case(c, obs, pt, pobs):
 
 
 def run_impl(binary, cases):
-    """a worker that dies or hangs is attributed to the case in flight ({"worker_death": ...}) and restarted"""
-    return vworker.run_worker([binary], cases, per_case_timeout=60), 0, ""
+    """a worker that dies or hangs is attributed to the case in flight ({"worker_death": ...}) and restarted;
+    the histories are independent of each other: 8 engine processes share them (interleaved, results in case order)"""
+    nw = 8 if len(cases) >= 64 else 1
+    parts = [cases[k::nw] for k in range(nw)]
+    outs = [None] * nw
+
+    def work(k):
+        outs[k] = vworker.run_worker([binary], parts[k], per_case_timeout=60)
+    ths = [threading.Thread(target=work, args=(k,)) for k in range(nw)]
+    for t in ths:
+        t.start()
+    for t in ths:
+        t.join()
+    res = [None] * len(cases)
+    for k in range(nw):
+        got = outs[k] or [{"worker_death": {"signature": "driver-thread-failed"}}] * len(parts[k])
+        for j, o in enumerate(got):
+            res[k + j * nw] = o
+    return res, 0, ""
 
 
 def mk(ops, names=LOOK, consts=CONSTS, shared=None, gc=False, callbacks=None, sharedfn=None, sharedobj=None):
@@ -259,12 +286,13 @@ def rand_case(rng, maxlen):
         if r < 0.55:
             route = rng.choice(["parse", "parse", "parsefile", "direct", "direct"] + SCRIPT_ROUTES)
             name = rng.choice(SIMPLE if route != "direct" else REG)
-            if used and rng.random() < 0.2 and route not in ("include", "require_once"):
-                f = rng.choice(used)
+            same = [x for x, cl in used if cl == ident_class(route)]
+            if same and rng.random() < 0.2 and route not in ("include", "require_once"):
+                f = rng.choice(same)
             else:
                 f = nextfile[0]
                 nextfile[0] += 1
-                used.append(f)
+                used.append((f, ident_class(route)))
             return {"op": "add", "vm": v, "kind": rng.choice("ccif"), "name": name, "file": f, "route": route}
         if r < 0.64:
             # script level: class_exists / interface_exists / new on the VM's own context
@@ -294,12 +322,13 @@ def rand_case(rng, maxlen):
         elif r < 0.55:
             route = rng.choice(["parse", "parse", "parsefile", "direct", "direct", "direct"] + SCRIPT_ROUTES)
             name = rng.choice(SIMPLE if route != "direct" else REG)
-            if used and rng.random() < 0.2 and route not in ("include", "require_once"):   # include is include_once: a fresh file
-                f = rng.choice(used)      # the same file again (same-file re-declaration)
+            same = [x for x, cl in used if cl == ident_class(route)]
+            if same and rng.random() < 0.2 and route not in ("include", "require_once"):   # include is include_once: a fresh file
+                f = rng.choice(same)      # the same file again (same-file re-declaration), within one identity class
             else:
                 f = nextfile[0]
                 nextfile[0] += 1
-                used.append(f)
+                used.append((f, ident_class(route)))
             ops.append({"op": "add", "vm": vm(), "kind": rng.choice("ccif"), "name": name, "file": f, "route": route})
         elif r < 0.85:
             ops.append({"op": rng.choice(["goc", "goc", "goi", "pkg"]), "vm": vm(),
@@ -450,7 +479,7 @@ def main(ck):
                     ops = fresh(pre + head + [a, b])
                     t = rng.choice([0, 1])
                     cases.append((mk(ops, names=NSNAMES, consts=["K"]), t if any(scoped_to(t, o) for o in ops) else None))
-        for _ in range(500 if ck.tier == "quick" else 6000):
+        for _ in range(500 if ck.tier == "quick" else 2000):
             al = ns_alpha((0, 1, 2))
             ops = fresh(pre + [{"op": "newtemp"}] + ([base_w] if rng.random() < 0.7 else []) + [rng.choice(al) for _ in range(rng.randint(3, 9))])
             t = rng.choice([0, 1, 2])
@@ -496,7 +525,7 @@ def main(ck):
                         ops = fresh(ops)
                         t = x if x >= 0 else y
                         cases.append((mk(ops, names=SHNAMES, consts=["K"], shared=["Theme", "Tint"]), t if t >= 0 and any(scoped_to(t, o) for o in ops) else None))
-        for _ in range(400 if ck.tier == "quick" else 5000):
+        for _ in range(400 if ck.tier == "quick" else 2000):
             al = sh_alpha((0, 1, 2))
             ops = pre + [{"op": "newtemp"}] + [rng.choice(al) for _ in range(rng.randint(3, 10))]
             if rng.random() < 0.3:
@@ -558,7 +587,7 @@ def main(ck):
                                   [{"op": "objcall", "vm": x, "name": "Theme", "route": via}, {"op": "objcall", "vm": -1, "name": "Theme", "route": via}]
                             ops = fresh(ops)
                             cases.append((mk(ops, names=["Theme", "A"], consts=["K"], sharedobj=["Theme"]), x))
-        for _ in range(150 if ck.tier == "quick" else 3000):
+        for _ in range(150 if ck.tier == "quick" else 1200):
             al = obj_alpha((0, 1, 2))
             ops = fresh(pre + [{"op": "newtemp"}] + [rng.choice(al) for _ in range(rng.randint(3, 9))])
             t = rng.choice([0, 1, 2])
@@ -590,7 +619,7 @@ def main(ck):
                     ops = fresh(ops)
                     t = x if x >= 0 else y
                     cases.append((mk(ops, names=FNNAMES, consts=["K"], sharedfn=["tf", "tg"]), t if t >= 0 and any(scoped_to(t, o) for o in ops) else None))
-        for _ in range(200 if ck.tier == "quick" else 3000):
+        for _ in range(200 if ck.tier == "quick" else 1200):
             al = fn_alpha((0, 1, 2))
             ops = pre + [{"op": "newtemp"}] + [rng.choice(al) for _ in range(rng.randint(3, 9))]
             if rng.random() < 0.3:
@@ -627,7 +656,7 @@ def main(ck):
                 ops = fresh(pre + [a, b])
                 t = rng.choice([0, 1])
                 cases.append((mk(ops, names=CBNAMES, consts=["K"], callbacks=["Legacy", "LegacyB"]), t if any(scoped_to(t, o) for o in ops) else None))
-        for _ in range(200 if ck.tier == "quick" else 4000):
+        for _ in range(200 if ck.tier == "quick" else 1500):
             cal3 = cb_alpha((0, 1, 2))
             ops = pre + [{"op": "newtemp"}] + [rng.choice(cal3) for _ in range(rng.randint(3, 9))]
             if rng.random() < 0.3:
@@ -642,7 +671,7 @@ def main(ck):
                 for t in range(nreq):
                     ops += [{"op": "req_begin"}, {"op": look, "vm": t, "name": "Legacy"}, {"op": "pkg", "vm": t, "name": "LegacyB"}, {"op": "req_end"}]
                 cases.append((mk(ops, names=CBNAMES, consts=["K"], callbacks=["Legacy", "LegacyB"]), 0))
-        nrand = 400 if ck.tier == "quick" else 12000
+        nrand = 400 if ck.tier == "quick" else 5000
         for _ in range(nrand):
             c = rand_case(rng, 40)
             ts = sorted(set(o["vm"] for o in c["ops"] if o["op"] in ("add", "goc", "goi", "pkg", "cexists", "iexists", "new", "newshort", "callfn", "newchild", "callcall", "objcall") and o["vm"] >= 0))
@@ -711,7 +740,9 @@ def main(ck):
     terms = [terms[i] for i in perm]
     idx = [idx[i] for i in perm]
     ck.log('evaluating %d cases in Coq' % len(terms))
-    bad = ck.eval_cases("cases", HEADER, terms, "check_case", shard=max(100, len(terms) // 32 + 1))
+    # shards of at most 400 histories: a coqc process evaluating 1 500 long histories at once grows to several GB and was
+    # killed on the loaded machine in the thorough tier (empty output, reported as a broken evaluation)
+    bad = ck.eval_cases("cases", HEADER, terms, "check_case", shard=min(400, max(100, len(terms) // 32 + 1)))
     names = {1: "tie: op result model-vs-impl", 2: "tie: lookups model-vs-impl", 3: "temp_op_frame(impl)",
              4: "base_visible_in_temps/base_stays_resolvable(impl)", 5: "temp_isolation_results/lookups(impl, purged history)",
              6: "implementation panicked"}
